@@ -322,6 +322,8 @@ def eval_case(c):
             return xeofs.single.ComplexEOF(n_modes=3, solver="full")
         if model == "SparsePCA":
             return xeofs.single.SparsePCA(n_modes=2, solver="full")
+        if model == "SparsePCA-randomized":
+            return xeofs.single.SparsePCA(n_modes=2, solver="randomized", random_state=3)      # seeded: every fit must start the same stream
         if model == "POP":
             return xeofs.single.POP(n_modes=2, n_pca_modes=4, random_state=7)     # seeded: the inner PCA uses a randomised solver
         if model == "MCA":
@@ -339,12 +341,20 @@ def eval_case(c):
     last = None
     msgs = []
     for op, arg in c["ops"]:
-        if last is None and op != "fit":
+        if last is None and op not in ("fit", "fit-weighted"):
             continue
         try:
             if op == "fit":
                 fit(m, arg)
                 last = arg
+            elif op == "fit-weighted":
+                # a fit with user weights; a later fit without weights must not see them
+                D = Ds[arg]
+                if cross or not isinstance(D, xr.DataArray):
+                    continue
+                W = xr.DataArray(np.linspace(0.5, 3.0, D.isel(time=0).size).reshape(D.isel(time=0).shape), dims=D.dims[1:], coords={d: D[d] for d in D.dims[1:]})
+                m.fit(D, "time", weights=W)
+                last = None            # answers after this op are not compared (a later plain fit resets `last`)
             elif op == "transform":
                 if cross:
                     m.transform(X=Ds[arg]) if type(Ds[arg]) is type(Ds[last]) and Ds[arg].sizes.get("lat", 0) == Ds[last].sizes.get("lat", -1) else None
@@ -370,7 +380,7 @@ def eval_case(c):
                 names_before = {k: (v.name, tuple(v.dims)) for k, v in m.data.items()}
                 R = (xeofs.cross.MCARotator if model == "MCA" else xeofs.cross.CPCCARotator if model == "CPCCA" else
                      xeofs.single.ComplexEOFRotator if model == "ComplexEOF" else xeofs.single.EOFRotator)
-                if model in ("SparsePCA", "POP"):
+                if model in ("SparsePCA", "SparsePCA-randomized", "POP"):
                     continue
                 R(n_modes=2, power=arg).fit(m)
                 after = _answers(m, Ds[last], cross)
@@ -433,6 +443,11 @@ def bounded_cases(tier, seed):
                 ops = [o for o in ops if o[1] not in ("Dds", "Dlist")]
             cases.append(dict(model=model, ops=[("fit", "D1")] + ops))
     cases.append(dict(model="EOF", ops=[("fit", "D1"), ("fit", "D2")], standardize=True, keep=True))
+    for model in ("EOF", "ComplexEOF", "SparsePCA"):
+        cases.append(dict(model=model, ops=[("fit-weighted", "D1"), ("fit", "D1")], keep=True))
+        cases.append(dict(model=model, ops=[("fit-weighted", "D1"), ("fit", "D2"), ("transform", "D2")], keep=model == "EOF"))
+    cases.append(dict(model="SparsePCA-randomized", ops=[("fit", "D1"), ("fit", "D2")], keep=True))
+    cases.append(dict(model="SparsePCA-randomized", ops=[("fit", "D1"), ("fit", "D1"), ("scores", None)], keep=True))
     for model in ("MCA-pca-all", "CPCCA-pca-all"):
         # PCA pre-reduction keeping "all" modes, refitted on data with more (and with fewer) features
         cases.append(dict(model=model, ops=[("fit", "D3"), ("fit", "D1")], keep=True))
